@@ -320,6 +320,13 @@ pub fn check_step<const N: usize, const P: usize, const D: usize, const L: usize
                         );
                     }
                     StackOp::Push { start, len: nl } => {
+                        if want.next_state == ST_EMPTY {
+                            // the name remembered here is the name of the End event of the expansion
+                            ensure!(
+                                depth_after == depth + 1 && buf_after.len() == stack_bytes_before + nl,
+                                "C16: an expanded empty element ends with its own name"
+                            );
+                        }
                         ensure!(depth_after == depth + 1, "C04: start tag pushes one open element");
                         ensure!(buf_after.len() == stack_bytes_before + nl, "C04: start tag records its name (length)");
                         ensure!(starts_after[depth] == stack_bytes_before, "C04: start tag records where its name begins");
@@ -669,8 +676,14 @@ pub fn check_emit<const N: usize, const P: usize>(raw: &[u8], sel: u8, mask: u32
         StackOp::None => ensure!(starts_after.len() == depth, "C04: stack depth unchanged"),
         StackOp::Pop => ensure!(starts_after.len() + 1 == depth && buf_after.len() == 0, "C04: end tag pops exactly one open element"),
         StackOp::Push { start, len: nl } => {
-            ensure!(starts_after.len() == depth + 1, "C04: start tag pushes one open element");
             let base = if depth == 1 { nlen } else { 0 };
+            if want.next_state == ST_EMPTY {
+                ensure!(
+                    starts_after.len() == depth + 1 && buf_after.len() == base + nl,
+                    "C16: an expanded empty element ends with its own name"
+                );
+            }
+            ensure!(starts_after.len() == depth + 1, "C04: start tag pushes one open element");
             ensure!(buf_after.len() == base + nl && starts_after[depth] == base, "C04: start tag records its name (length)");
             forall_idx!(j < nl => {
                 ensure!(buf_after[base + j] == rest[start + j], "C04: start tag records its name");
